@@ -4,6 +4,7 @@ import json, os, glob, importlib.util, subprocess
 ROOT = os.path.dirname(os.path.dirname(os.path.abspath(__file__)))
 ids = [json.loads(l)['id'] for l in open(os.path.join(ROOT, 'properties.jsonl'))]
 checks = []; na = []
+ready = set(open(os.path.join(ROOT, 'props', 'READY')).read().split()) if os.path.exists(os.path.join(ROOT, 'props', 'READY')) else set()
 for pid in ids:
     p = os.path.join(ROOT, 'props', pid + '.py')
     claim = None
@@ -13,6 +14,8 @@ for pid in ids:
         nareason = getattr(m, 'NOT_APPLICABLE', None)
     else:
         nareason = 'no check built yet for this property in this session (work in progress; see DESIGN.md section 6 for the plan)'
+    if claim and pid not in ready:
+        claim = None; nareason = 'check under construction in this session: harnesses exist but have not yet been validated end-to-end on the unchanged tree'
     if claim:
         checks.append(dict(property_id=pid, quick_cmd='./check %s --tier quick' % pid, thorough_cmd='./check %s --tier thorough' % pid,
                            evidence_file='/verif/evidence/%s.json' % pid, replay_cmd_template='./check %s --replay {path}' % pid, engine='cbmc-ir',
